@@ -9,48 +9,60 @@ LINK = {"single": cl.single_linkage, "complete": cl.complete_linkage, "centroid"
         "average": cl.average_linkage}
 
 
+def _pow2(q):
+    d = F(q).denominator
+    return d & (d - 1) == 0
+
+
 def oracle(kind, xs, t):
-    """labels by the statement; returns (labels, min |dist - t|) ; distances exact"""
+    """labels by the statement, distances in exact rationals.  Returns (labels, verdict): verdict is None when every comparison is
+    decided reliably in doubles, else the reason the case is skipped.  A comparison is reliable when it is at least 1e-9 away from
+    the threshold, or an *exact tie whose floating-point evaluation is exact*: integer x over a power-of-two range and
+    - single / complete: always (one difference, one division by a power of two);
+    - centroid: the current cluster has at most 2 members (the running centre is then a sum of two halves);
+    - average: the mean distance divided by the range has a power-of-two denominator (one correctly rounded division of exact integers)."""
     L = F(xs[-1]) - F(xs[0])
+    ints = all(float(v).is_integer() for v in xs) and _pow2(F(1) / L) and _pow2(t)
     lab = [0]
     start = 0
-    margin = None
+    verdict = None
     for i in range(1, len(xs)):
         run = [F(v) for v in xs[start:i]]
         xi = F(xs[i])
         if kind == "single":
-            d = abs(xi - F(xs[i - 1]))
+            d, exact = abs(xi - F(xs[i - 1])), ints
         elif kind == "complete":
-            d = abs(xi - run[0])
+            d, exact = abs(xi - run[0]), ints
         elif kind == "centroid":
-            d = abs(xi - sum(run) / len(run))
+            d, exact = abs(xi - sum(run) / len(run)), ints and len(run) <= 2
         else:
             d = sum(abs(xi - v) for v in run) / len(run)
+            exact = ints and _pow2(d / L)
         d = d / L
         m = abs(d - t)
-        margin = m if margin is None else min(margin, m)
+        if m == 0 and not exact:
+            verdict = verdict or "exact tie where the floating-point evaluation is not exact"
+        elif 0 < m < F(1, 10 ** 9):
+            verdict = verdict or "within 1e-9 of a tie (rounding could legitimately decide either way)"
         if d >= t:
             lab.append(lab[-1] + 1)
             start = i
         else:
             lab.append(lab[-1])
-    return lab, margin
+    return lab, verdict
 
 
-def check(H, kind, xs, t, exact_ties):
+def check(H, kind, xs, t, exact_ties=None):
     pts = curve(xs, [1.0] * len(xs))
     got = LINK[kind](pts, float(t))
-    want, margin = oracle(kind, xs, t)
-    if margin is not None and margin != 0 and margin < F(1, 10 ** 9):
-        H.note("skipped: within 1e-9 of a tie (rounding could legitimately decide either way)")
-        return
-    if margin == 0 and not exact_ties:
-        H.note("skipped: exact tie where the floating-point evaluation is not exact")
+    want, verdict = oracle(kind, xs, t)
+    if verdict is not None:
+        H.note("skipped: " + verdict)
         return
     ok = len(got) == len(xs) and list(map(int, got)) == want
     if not ok:
         H.violation("%s_linkage(x=%s, t=%s) = %s, rule gives %s" % (kind, list(xs), t, np.asarray(got).tolist(), want),
-                    {"kind": kind, "xs": list(xs), "t": [t.numerator, t.denominator], "exact_ties": exact_ties}, clause="rule")
+                    {"kind": kind, "xs": list(xs), "t": [t.numerator, t.denominator], "exact_ties": True}, clause="rule")
 
 
 def replay(inp):
@@ -96,6 +108,6 @@ def run(H, tier, rng):
 
 if __name__ == "__main__":
     Harness("C11", "all strictly increasing integer x sequences inside 0..8 with both ends (128) x t in {1/16..16/16, 3/2} x 4 linkages, "
-            "oracle = the statement's rule in exact rational arithmetic (exact ties included for single/complete, where the doubles are "
-            "exact); cluster-count monotonicity on the same grid; seeded random real-valued inputs away from ties",
+            "oracle = the statement's rule in exact rational arithmetic (exact ties included wherever the evaluation in doubles is "
+            "exact: always for single/complete, for centroid while the cluster has <= 2 members, for average when the mean distance is dyadic); cluster-count monotonicity on the same grid; seeded random real-valued inputs away from ties",
             "x range 0..8, n <= 9; random n <= 12").main(run, replay)
